@@ -4,6 +4,7 @@
 package main
 
 import (
+	"runtime/debug"
 	"strconv"
 	"runtime"
 	"sync/atomic"
@@ -179,6 +180,39 @@ func startUnitWatchdog() {
 	})
 }
 
+// productPanic: a panic that escaped every guarded call (constructors, option
+// handling). If its innermost non-runtime frame is library code it is reported
+// as a finding of the property being checked; the worker cannot continue.
+func productPanic(r any, stack []byte) (Finding, bool) {
+	lines := strings.Split(string(stack), "\n")
+	for _, l := range lines {
+		l = strings.TrimSpace(l)
+		if !strings.Contains(l, "(") || strings.HasPrefix(l, "/") || strings.HasPrefix(l, "goroutine ") {
+			continue
+		}
+		if strings.HasPrefix(l, "runtime") || strings.HasPrefix(l, "panic(") || strings.HasPrefix(l, "main.productPanic") || strings.HasPrefix(l, "main.main.func") {
+			continue
+		}
+		if strings.Contains(l, "zzverif") || strings.HasPrefix(l, "main.") {
+			return Finding{}, false
+		}
+		if strings.Contains(l, "github.com/open-telemetry/otel-arrow/") {
+			f := Finding{Prop: wdProp, Key: "outside any encode/decode call", Msg: fmt.Sprintf("library code panicked outside an encode/decode call (constructor, option handling or Close): %v [%s]", r, l)}
+			if c := wdCur.Load(); c != nil {
+				f.Unit, f.Step, f.Key, f.Extra = c.f.Unit, c.f.Step, c.f.Key, c.f.Extra
+			} else if u := lastUnit.Load(); u != nil {
+				f.Unit, f.Key = *u, unitKey(*u, len(u.History)-1)
+			}
+			return f, true
+		}
+		return Finding{}, false
+	}
+	return Finding{}, false
+}
+
+var lastUnit atomic.Pointer[Unit]
+var lastOut atomic.Pointer[WorkerOut]
+
 func runUnits(units []Unit, shard, nshard int) *WorkerOut {
 	out := &WorkerOut{WireStates: map[string]bool{}, Events: map[string]int{}, Layers: map[string]int{}}
 	defer wdEnd()
@@ -190,6 +224,9 @@ func runUnits(units []Unit, shard, nshard int) *WorkerOut {
 		}
 		out.Units++
 		out.Layers[u.Tag]++
+		uu := u
+		lastUnit.Store(&uu)
+		lastOut.Store(out)
 		st := NewStreamFault(u.Opts, u.Mon, u.Fault)
 		st.pipelined = u.Pipelined
 		hist := u.History
@@ -308,6 +345,29 @@ func main() {
 	}
 	wdProp = *prop
 	if *worker {
+		defer func() {
+			if r := recover(); r != nil {
+				f, ok := productPanic(r, debug.Stack())
+				if !ok {
+					panic(r)
+				}
+				out := lastOut.Load()
+				if c := wdCur.Load(); c != nil && c.out != nil {
+					out = c.out
+				}
+				if out == nil {
+					out = &WorkerOut{WireStates: map[string]bool{}, Events: map[string]int{}, Layers: map[string]int{}}
+				}
+				if out.Counters == nil {
+					out.Counters = map[string]int{}
+				}
+				out.Findings = append(out.Findings, f)
+				out.Counters["shards_abandoned_on_non_termination"]++
+				b, _ := json.Marshal(out)
+				fmt.Println("RESULT " + string(b))
+				os.Exit(3)
+			}
+		}()
 		onRunaway = func(f Finding, out *WorkerOut) {
 			// the stuck goroutine is inside Step: out is not being written
 			out.Findings = append(out.Findings, f)
@@ -351,7 +411,18 @@ func main() {
 	os.Exit(parent(*prop, *tier, len(units), *evidence, *replayDir, *known, *jobs))
 }
 
-func doReplay(path string) int {
+func doReplay(path string) (rc int) {
+	defer func() {
+		if r := recover(); r != nil {
+			f, ok := productPanic(r, debug.Stack())
+			if !ok {
+				panic(r)
+			}
+			fmt.Printf("[%s] %s\n", f.Prop, f.Msg)
+			fmt.Printf("VIOLATION property=%s replay=%s\n", wdProp, path)
+			rc = 1
+		}
+	}()
 	b, err := os.ReadFile(path)
 	if err != nil {
 		fmt.Fprintln(os.Stderr, "HARNESS-ERROR:", err)
